@@ -121,7 +121,7 @@ def run(ctx):
                                                            'why': 'documented spelling is not normalised to the canonical component'})
                     items.append((impl.line_tract_pp(text, False), impl.render(got), {'op': 'scrub_aliquots', 'text': text}))
     rep.extra['lexical_contract_cases'] = n_tab
-    for i in range(ctx.budget(900, 40000)):
+    for i in range(ctx.budget(900, 200000)):
         r = rng.fork(i)
         chain = gen.rand_chain(r, 5)
         text = render(chain, r)
@@ -137,7 +137,7 @@ def run(ctx):
         loose = gen.render_chain(chain, r)
         items.append((impl.line_tract_pp(loose, clean), impl.impl_tract_pp(loose, clean), {'op': 'scrub_aliquots', 'text': loose, 'clean_qq': clean}))
     # bare quarters directly after a half ("E2NENW" -> E½NE¼NW¼), glued or spaced, any number of them
-    for i in range(ctx.budget(300, 8000)):
+    for i in range(ctx.budget(300, 40000)):
         r = rng.fork(700000 + i)
         h = r.choice(gen.HALVES)
         qs = [r.choice(gen.QUARTERS) for _ in range(r.range(1, 3))]
